@@ -62,12 +62,12 @@ def par_tlc(ctx, jobs, width=4):
 def mc_job(ctx, what, handlers, ops, reqs, timeout, **kw):
     return dict(name="mc-" + what, kind="mc", what=what, desc="%s, <=%d ops, %s" % (handlers, ops, reqs),
                 cfg_text=cfg("Spec", handlers, ops, reqs, inv=True, **kw), timeout=timeout, coverage=ctx.thorough,
-                workers=ctx.pick(4, 8))
+                workers=ctx.pick(2, 8))
 
 
 def gen_job(ctx, what, sink, handlers, ops, reqs, full, timeout=900, **kw):
     return dict(name="gen-" + what, kind="gen", what=what, desc="%s, <=%d ops, %s" % (handlers, ops, reqs),
-                cfg_text=cfg("GenSpec", handlers, ops, reqs, full=full, **kw), json_sink=sink, timeout=timeout, workers=ctx.pick(4, 8))
+                cfg_text=cfg("GenSpec", handlers, ops, reqs, full=full, **kw), json_sink=sink, timeout=timeout, workers=ctx.pick(2, 8))
 
 
 def settle(ctx, jobs, res):
@@ -223,14 +223,14 @@ def run(ctx):
                          chunks=MCCHUNKS2, abort=True, hijack=True)]
         for f in (hst, snf, viaf):
             open(f, "w").close()
-    if not settle(ctx, jobs, par_tlc(ctx, jobs, width=ctx.pick(4, 3))):
+    if not settle(ctx, jobs, par_tlc(ctx, jobs, width=ctx.pick(7, 3))):
         return
     behs = os.path.join(ctx.tmp, "c17.behs")
     n1 = share(ctx, one, behs, ctx.pick(0.025, 0.12), boost=4.0)
     n2 = share(ctx, two, behs, ctx.pick(0.012, 0.06), boost=2.0)
     n3 = share(ctx, info, behs, ctx.pick(0.05, 0.15), boost=2.0, need='"code":10')
     n2 += share(ctx, info2, behs, ctx.pick(0.03, 0.2), boost=2.0, pred=lambda l: '"code":10' in l or '"ev":"fl"' in l)
-    n4 = share(ctx, aef, behs, ctx.pick(0.12, 1.0), boost=1.5)
+    n4 = share(ctx, aef, behs, ctx.pick(0.07, 1.0), boost=1.5)
     n4 += share(ctx, flf, behs, ctx.pick(0.06, 0.12), boost=3.0, need='"ev":"fl"')
     n5 = share(ctx, hst, behs, ctx.pick(0.15, 0.25))
     n5 += share(ctx, hst2, behs, ctx.pick(0.08, 0.3))
